@@ -354,6 +354,7 @@ def check_masks(nmax=4):
 # each bound ends up as the LAST value listed for it (else its initial value), the four horizontal bounds scaled by PI/180 exactly when
 # the finally selected grid type is spherical, chunk or annulus (bounds in degrees), z_min / z_max unscaled.
 BOUNDS = ('x_min', 'x_max', 'y_min', 'y_max', 'z_min', 'z_max')
+EXTRA = {'dim': 'num', 'compositions': 'num', 'vtu_output_format': 'str', 'n_cell_x': 'capped', 'n_cell_y': 'capped', 'n_cell_z': 'capped'}      # the other options: last listed value (cell counts capped by the resolution limit)
 def check_options(L=3):
     t0 = time.time()
     r = dict(id='C18.options', case=[L], verdict='PROVED', violations=[], undecided=[], stats={}, reached={}, called=['main (source/gwb-grid/main.cc, Clang AST): option scan over the grid file lines and the degrees-to-radians block'], axioms=['PI is an uninterpreted positive real constant; string_to_double / string_to_unsigned_int of the third token = an arbitrary real per line'], validated=0, validation_mismatch=[], wall=0, samples=[])
@@ -364,8 +365,10 @@ def check_options(L=3):
         def sid(s): return z3.IntVal(ids.setdefault(s, len(ids)))
         PI = z3.Real('PI'); fresh = [0]
         def fb(): fresh[0] += 1; return z3.Bool('unk_%d' % fresh[0])
-        tracked = set(BOUNDS) | {'grid_type'}
+        tracked = set(BOUNDS) | {'grid_type'} | set(EXTRA)
         state = {v: z3.Real('init_' + v) for v in BOUNDS}; state['grid_type'] = z3.Int('init_grid_type')
+        for v, kind in EXTRA.items(): state[v] = z3.Int('init_' + v) if kind == 'str' else z3.Real('init_' + v)
+        ext = {}
         init = dict(state)
         # the enclosing statement list: the range-for over `data` whose body assigns grid_type
         seqs = astx.find(tree, lambda x: x[0] == 'seq' and any(c[0] == 'forrange' and c[1] == ('var', 'data') and _mentions(c[2], 'grid_type') for c in x[1]))
@@ -384,9 +387,12 @@ def check_options(L=3):
                 if t[1] in state: return state[t[1]]
                 if t[1] in defs: return defs[t[1]]
                 if t[1] == 'PI': return PI
+                if t[1] not in tracked and t[1] != 'line_i': return ext.setdefault(t[1], z3.Real('ext_' + t[1]))      # a value from outside the option scan (command line): arbitrary
                 raise astx.AstxError('value of ' + t[1])
             if k == 'idx' and t[1] == ('var', 'line_i') and t[2] == ('int', 2) and line is not None: return line['sid']
             if k == 'call' and t[1] in ('string_to_double', 'string_to_unsigned_int', 'string_to_int') and len(t[2]) >= 1 and t[2][0] == ('idx', ('var', 'line_i'), ('int', 2)) and line is not None: return line['num']
+            if k == 'call' and t[1] == 'min' and len(t[2]) == 2:
+                a, b = val(t[2][0], line, defs), val(t[2][1], line, defs); return z3.If(a <= b, a, b)
             if k == 'call' and len(t[2]) == 1 and t[1] not in ('string_to_double', 'string_to_unsigned_int'):      # conversions / constructors around one value
                 return val(t[2][0], line, defs)
             if k == 'bin' and t[1] in ('*', '/', '+', '-'):
@@ -474,6 +480,15 @@ def check_options(L=3):
             exp = z3.If(want_curved, raw * (PI / 180), raw) if b[0] in 'xy' else raw
             listed = z3.Or(*[z3.And(z3.Not(ln['empty']), ln['key'] != sid('#'), ln['key'] == sid(b), ln['eq']) for ln in lines])      # an unlisted bound stays NaN and main() refuses to run
             claims.append(("%s is the last listed value, in radians exactly when the selected grid type takes degrees, whatever the order of the lines" % b, z3.Implies(listed, state[b] == exp)))
+        loop_text = str(stmts[at][2])
+        for v, kind in EXTRA.items():
+            if ("'str', '%s'" % v) not in loop_text: continue      # this tree has no such option
+            listed = z3.Or(*[z3.And(z3.Not(ln['empty']), ln['key'] != sid('#'), ln['key'] == sid(v), ln['eq']) for ln in lines])
+            raw = last(v, 'sid' if kind == 'str' else 'num', init[v])
+            if kind == 'capped':
+                if len(ext) != 1: continue      # which outside value caps the cell counts is not recognisable: no claim
+                cap = list(ext.values())[0]; raw = z3.If(raw <= cap, raw, cap)
+            claims.append(("option %s is the last value listed for it%s, whatever the order of the lines" % (v, ' (capped by the resolution limit)' if kind == 'capped' else ''), z3.Implies(listed, state[v] == raw)))
         for what, cl in claims:
             sol = z3.Solver(); sol.set('timeout', 120000); sol.add(*pre); sol.add(z3.Not(cl))
             t = time.time(); res = sol.check(); solver_s += time.time() - t; queries += 1; asserts += 1
